@@ -235,7 +235,12 @@ class Result:
         nviol = 0
         lines = []
         seen_known = set()
+        per_sig = {}
         for sig, text, replay, found in self.violations:
+            per_sig[sig] = per_sig.get(sig, 0) + 1
+            if per_sig[sig] > 3 and not any(k["signature"] == sig for k in known):
+                nviol += 1      # counted, but only the first three of a kind get a replay file and a line
+                continue
             k = next((k for k in known if k["signature"] == sig), None)
             if k is not None:
                 if sig not in seen_known:
